@@ -26,6 +26,9 @@ import (
 //   ip       random IPv4 / IPv6 / IPv4-mapped addresses and CIDR prefixes in several text forms,
 //            single addresses, malformed texts
 //   conc     the same calls from 16 goroutines (results must equal the sequential ones)
+//   cold     (child process, c09_proc.go) 16 goroutines meet fresh patterns on a cold regexp cache
+//   poison   (child process, c09_proc.go) panicking calls followed by valid calls under a watchdog
+//   *-race   both child phases once more under the race detector (go1.26.8) when available
 
 const (
 	c09Plain = iota
@@ -1164,7 +1167,7 @@ func init() {
 			nHostile, nIP = 40000, 120000
 		}
 		c.Exhaust = false
-		c.Rule = "grid (bounded-exhaustive): every pattern over segments {a, b, ab, empty, placeholder x, placeholder y} of up to 3 (thorough 4) segments, with and without trailing /*, x every path over {a, b, empty(, ab)} of up to 4 (thorough 5) segments plus query-string and no-leading-slash variants; each pattern is run through every function whose placeholder syntax makes it well-formed (KeyMatch2/KeyGet2 on the :name text, KeyMatch3/4/5/KeyGet3 on the {name} text, KeyMatch/KeyGet and KeyMatch3/4/5 on the texts where the other syntax' placeholders are literals), keyGet2/3 for every placeholder name and one absent name. hostile: random well-formed patterns with unusual literal bytes and arbitrary name bytes, paths obtained by instantiating the pattern and mutating it (arbitrary bytes incl. invalid UTF-8, no line feed); a small line-feed stream and the refuted-lemma witnesses are outside the theorem guards but the model is faithful there and they are compared too. func: the nine *Func wrappers with right/wrong arity and non-string arguments. ip: random IPv4 / IPv6 / IPv4-mapped networks and prefixes (boundary prefixes /0 /1 /31 /32 /95 /96 /97 /127 /128 and random), addresses derived from the network by randomising host bits and flipping one prefix bit, several text forms (::-compression, upper case, leading zeros, embedded IPv4), single addresses, malformed texts (fixed list and random one-byte edits). conc: a sample of all these calls repeated from 16 goroutines. Non-trivial = a (view, path set) with at least one accepted path, or a well-formed (address, CIDR) pair."
+		c.Rule = "grid (bounded-exhaustive): every pattern over segments {a, b, ab, empty, placeholder x, placeholder y} of up to 3 (thorough 4) segments, with and without trailing /*, x every path over {a, b, empty(, ab)} of up to 4 (thorough 5) segments plus query-string and no-leading-slash variants; each pattern is run through every function whose placeholder syntax makes it well-formed (KeyMatch2/KeyGet2 on the :name text, KeyMatch3/4/5/KeyGet3 on the {name} text, KeyMatch/KeyGet and KeyMatch3/4/5 on the texts where the other syntax' placeholders are literals), keyGet2/3 for every placeholder name and one absent name. hostile: random well-formed patterns with unusual literal bytes and arbitrary name bytes, paths obtained by instantiating the pattern and mutating it (arbitrary bytes incl. invalid UTF-8, no line feed); a small line-feed stream and the refuted-lemma witnesses are outside the theorem guards but the model is faithful there and they are compared too. func: the nine *Func wrappers with right/wrong arity and non-string arguments. ip: random IPv4 / IPv6 / IPv4-mapped networks and prefixes (boundary prefixes /0 /1 /31 /32 /95 /96 /97 /127 /128 and random), addresses derived from the network by randomising host bits and flipping one prefix bit, several text forms (::-compression, upper case, leading zeros, embedded IPv4), single addresses, malformed texts (fixed list and random one-byte edits). conc: a sample of all these calls repeated from 16 goroutines (warm regexp cache). cold (child process): 16 goroutines released together, 32 (thorough 200) rounds, each round every goroutine calls KeyGet2 / KeyGet3 / KeyMatch4 on fresh well-formed patterns nobody compiled before (12 shared by all goroutines in the same order + 20 private ones) mixed with patterns cached one round earlier, every result compared with the reference and (as single calls, justified by C09_cache_transparent) with the model; a Go runtime fatal error (concurrent map writes) or a child that does not finish is a violation. poison (child process): every call whose expanded pattern does not compile (unbalanced ( ) [, nested repetition, KeyMatch4 token-count panic, malformed IP text) is followed by 13 valid calls on cached and fresh patterns through all nine functions under a 5 s watchdog and by itself again (an error must not poison later calls), then 8 goroutines mix panicking and valid calls. Both child phases run once more in a binary built with go1.26.8 -race when that toolchain is installed (any reported data race is a violation). Non-trivial = a (view, path set) with at least one accepted path, or a well-formed (address, CIDR) pair."
 		g.grid()
 		g.hostile(nHostile, false)
 		g.hostile(nHostile/20, true)
